@@ -34,6 +34,19 @@
 # The point of acc / free together with the HISTORY: whatever a render leaves behind anywhere in the process
 # (engine, package-level variable, pool, cache) and a later render picks up makes r3..r5 differ from r0 and
 # from the single-render processes.
+# OBJECT-MODEL DATA: page data may already hold values of the engine's own object model - what the caller got
+# from pugjs.Convert (*pugjs.Array, *pugjs.Map, pugjs.String / Number / Bool / Nil), Go slices []pugjs.Object and
+# maps map[string]pugjs.Object of such values - anywhere: as a whole, as items / m / o, nested in lists and maps.
+# The caller keeps these values (a cache of converted data, values built for template functions): they are
+# handed to EVERY render of the pair and are part of the deep comparison with the pristine copy.  Every slice
+# the harness builds is a window into a longer array (0-2 marked elements behind its end) that is compared too.
+# ENGINES OF ONE PROCESS: the engines of the pair share one function table (standard functions + sometimes
+# zero-argument functions under names the templates read like constants: motto, claim, brand, lang, year);
+# ALIEN engines live in the same process with function tables of their own - a name the template reads is a
+# function in one engine and a variable of the page data in the other - over the same template files or
+# over other files under the same names.  They are created and loaded before the pair's first engine exists,
+# or before the history, render right after loading and in between the other renders.  Every alien render is
+# repeated in a process that holds only that engine: the two outputs must be equal.
 # A template is stored either as raw pug AST JSON (list of nodes) or as {"tree": <tmpl.py pug tuples>};
 # only the tree form is handed to the executor model.
 import json
@@ -80,6 +93,12 @@ def d_go(v):
         return {"t": t, "v": [[hx(k), d_go(x)] for k, x in v[1].items()]}
     if t == 'ptr':
         return {"t": "ptr", "v": d_go(v[1])}
+    if t == 'obj':
+        return {"t": "obj", "v": d_go(v[1])}
+    if t == 'objs':
+        return {"t": "objs", "v": [d_go(x) for x in v[1]]}
+    if t == 'omap':
+        return {"t": "omap", "v": [[hx(k), d_go(x)] for k, x in v[1]]}
     raise ValueError(v)
 
 
@@ -124,6 +143,14 @@ def d_coq(v):
         return b"(GPtr (Some " + s + b"))" if t == 'prec' else s
     if t == 'ptr':
         return b"(GPtr (Some " + d_coq(v[1]) + b"))"
+    # values of the engine's own object model stand for the Go value they were converted from: a render
+    # converts its data, and converting a converted value is the identity on what a template can see
+    if t == 'obj':
+        return d_coq(v[1])
+    if t == 'objs':
+        return b"(GArr " + cq_list([d_coq(x) for x in v[1]]) + b")"
+    if t == 'omap':
+        return b"(GMap " + cq_list([cq_pair(ckey(k), d_coq(x)) for k, x in v[1]]) + b")"
     raise ValueError(v)
 
 
@@ -153,6 +180,12 @@ def d_plain(v):
         return {"go": "struct" if t == 'rec' else "*struct", "fields": {k: d_plain(x) for k, x in v[1].items()}}
     if t == 'ptr':
         return {"go": "pointer", "to": d_plain(v[1])}
+    if t == 'obj':
+        return {"go": "pugjs.Convert(..)", "of": d_plain(v[1])}
+    if t == 'objs':
+        return {"go": "[]pugjs.Object", "items": [d_plain(x) for x in v[1]]}
+    if t == 'omap':
+        return {"go": "map[string]pugjs.Object", "entries": {k: d_plain(x) for k, x in v[1]}}
     raise ValueError(v)
 
 
@@ -168,8 +201,14 @@ def d_kinds(v, acc):
     elif t in ('rec', 'prec'):
         for x in v[1].values():
             d_kinds(x, acc)
-    elif t == 'ptr':
+    elif t in ('ptr', 'obj'):
         d_kinds(v[1], acc)
+    elif t == 'objs':
+        for x in v[1]:
+            d_kinds(x, acc)
+    elif t == 'omap':
+        for _, x in v[1]:
+            d_kinds(x, acc)
     return acc
 
 
@@ -179,6 +218,9 @@ KEYS = ["a", "b", "c", "d", "e", "f", "g", "h", "A", "B", "Ab", "ab", "aB", "id"
 STR_ALPHABET = ["a", "b", "c", "X", "Y", "0", "1", "9", " ", " ", "<", ">", "&", '"', "'", "/", "\\", "é", "-",
                 "_", ".", ",", "=", "\n", "\t", "ü", "{", "}"]
 TOP_EXTRA = ["foo", "Foo", "bar", "Bar", "title", "Title", "n", "N", "count", "Count", "M", "O", "Items", "q", "zeta"]
+# names that templates only READ, like constants (`= motto`, `if lang`, title=brand): in one engine such a name is
+# a zero-argument template function, in another one a variable of the page data
+CONSTS = ["motto", "claim", "brand", "lang", "year"]
 
 
 def g_str(rng, maxlen=8):
@@ -296,6 +338,82 @@ def g_data(rng, tier):
     return d
 
 
+# ---- values of the engine's own object model in the data
+# ('obj', v)    what the caller got from pugjs.Convert(v): *pugjs.Array for slices, *pugjs.Map for maps and structs (a
+#               struct's fields are converted on first access), pugjs.String / Number / Bool / Nil for scalars
+# ('objs', [v]) a Go slice []pugjs.Object of such values      ('omap', [(k, v)]) a Go map map[string]pugjs.Object
+OBJ_KINDS = ('obj', 'objs', 'omap')
+
+
+def objectify(rng, v, p):
+    """the same data with (more or less, by p) of its values held as pugjs objects; what a template can see of the
+    data stays what it was"""
+    t = v[0]
+    r = rng.random()
+    if t in ('arr', 'strs', 'ints'):
+        elems = [('str', x) for x in v[1]] if t == 'strs' else [('int', x) for x in v[1]] if t == 'ints' else v[1]
+        if r < p * 0.55:
+            return ('objs', [objectify(rng, x, p * 0.4) for x in elems])
+        if r < p:
+            return ('obj', v)
+        if t == 'arr':
+            return ('arr', [objectify(rng, x, p * 0.6) for x in v[1]])
+        return v
+    if t == 'map':
+        if r < p * 0.5:
+            return ('obj', v)
+        if r < p * 0.8:
+            return ('omap', list(v[1]))
+        return ('map', [(k, objectify(rng, x, p * 0.6)) for k, x in v[1]])
+    if t in ('smap', 'imap', 'nmap'):
+        return ('obj', v) if r < p * 0.4 else v
+    if t in ('rec', 'prec', 'str', 'int', 'bool', 'nil'):
+        return ('obj', v) if r < p * 0.3 else v
+    return v
+
+
+def objectify_data(rng, data):
+    if data[0] != 'map':
+        return data
+    top = [(k, objectify(rng, x, 0.9 if k == "items" else 0.75 if k in ("m", "o") else 0.35)) for k, x in data[1]]
+    if not any(has_objects(x) for _, x in top):
+        top = [(k, (('objs', [('str', y) for y in x[1]]) if x[0] == 'strs' else ('obj', x)) if k == "items" else x)
+               for k, x in top]
+    d = ('map', top)
+    return ('obj', d) if rng.random() < 0.06 else d
+
+
+def has_objects(v):
+    return bool(d_kinds(v, set()) & set(OBJ_KINDS))
+
+
+def erase_objects(v):
+    """the plain Go data a value with pugjs objects in it was made from"""
+    t = v[0]
+    if t == 'obj':
+        return erase_objects(v[1])
+    if t == 'objs':
+        return ('arr', [erase_objects(x) for x in v[1]])
+    if t == 'omap':
+        return ('map', [(k, erase_objects(x)) for k, x in v[1]])
+    if t == 'arr':
+        return ('arr', [erase_objects(x) for x in v[1]])
+    if t == 'map':
+        return ('map', [(k, erase_objects(x)) for k, x in v[1]])
+    if t in ('rec', 'prec'):
+        return (t, {k: erase_objects(x) for k, x in v[1].items()})
+    if t == 'ptr':
+        return ('ptr', erase_objects(v[1]))
+    return v
+
+
+def top_of(data):
+    """the top-level map description inside a pointer / a converted object"""
+    while data[0] in ('ptr', 'obj'):
+        data = data[1]
+    return data
+
+
 def lower_nested(v, top=True):
     """the same data with every map key below the top level starting in lower case (entries whose lowered key
     is already taken are dropped): no object of such data holds two keys that differ only in the case of the
@@ -314,8 +432,8 @@ def lower_nested(v, top=True):
         return (t, out)
     if t in ('rec', 'prec'):
         return (t, {k: lower_nested(x, False) for k, x in v[1].items()})
-    if t == 'ptr':
-        return ('ptr', lower_nested(v[1], top))
+    if t in ('ptr', 'obj'):
+        return (t, lower_nested(v[1], top))
     return v
 
 
@@ -501,11 +619,22 @@ FREE_PRINTS = [
 ]
 
 
-def free_nodes(rng):
+# statements that write IN PLACE into objects that come from the data
+WRITE_STMTS = [
+    EX(MC(items_, 'sort')), EX(MC(items_, 'sort')), EX(MC(items_, 'push', N(9))), EX(MC(items_, 'pop')),
+    EX(MC(items_, 'shift')), EX(MC(items_, 'unshift', S('u'))), VAR('sp', MC(items_, 'splice', N(1))),
+    ASG(D(m_, 'k'), N(1)), ASG(D(m_, 'zz'), S('w')), VAR('u', OASSIGN(m_, o_)), VAR('u2', OASSIGN(o_, m_)),
+    ASG(D(o_, 'z'), items_),
+]
+
+
+def free_nodes(rng, writes=False):
     nodes = []
     for _ in range(rng.randint(1, 7)):
         r = rng.random()
-        if r < 0.57:
+        if writes and r < 0.35:
+            nodes.append(t_stmt(rng.choice(WRITE_STMTS)))
+        elif r < 0.57:
             nodes.append(t_stmt(rng.choice(FREE_STMTS)))
         elif r < 0.77:
             nodes.append(rng.choice(FREE_PRINTS))
@@ -780,6 +909,108 @@ def g_late(rng, tier, data, others):
     return late
 
 
+# ---- names read like constants
+def const_reads(rng, names):
+    """nodes that read the names in value position: printed, tested, as an attribute value, inside an expression,
+    as a mixin argument"""
+    nodes = []
+    for c in names:
+        r = rng.random()
+        if r < 0.45:
+            nodes.append(t_print(I(c), True, rng.random() < 0.5))
+        elif r < 0.6:
+            nodes.append(t_if(I(c), [t_text("y:" + c)]))
+        elif r < 0.75:
+            nodes.append(t_tag("a", attrs=[("title", I(c))], body=[t_text("l")]))
+        elif r < 0.9:
+            nodes.append(t_print(('bin', '+', I(c), S('!'))))
+        else:
+            nodes.append(t_print(I(c), False))
+    return nodes
+
+
+def with_const_reads(rng, tree, p=0.55):
+    """the tree with 1-2 such reads put somewhere at its top level (by p); returns (tree, names read)"""
+    if rng.random() >= p:
+        return tree, []
+    names = rng.sample(CONSTS, rng.choice([1, 1, 2]))
+    tree = list(tree)
+    for n in const_reads(rng, names):
+        tree.insert(rng.randint(0, len(tree)), n)
+    return tree, names
+
+
+def tree_consts(nodes):
+    """the CONSTS names a stored template (tree or raw AST) mentions"""
+    text = json.dumps(nodes)
+    return [c for c in CONSTS if '"%s"' % c in text or ("'%s'" % c) in text]
+
+
+def g_const(rng):
+    """what a constant-like template function returns"""
+    r = rng.random()
+    if r < 0.6:
+        return ('str', rng.choice([b"fn", b"F<1>", b"from function", b"f&g", b""]) + g_str(rng, 3))
+    if r < 0.8:
+        return ('int', rng.randint(0, 99))
+    if r < 0.9:
+        return ('bool', rng.random() < 0.5)
+    return ('strs', [g_str(rng, 3) for _ in range(rng.randint(0, 3))])
+
+
+def g_engines(rng, tier, data, files, reads):
+    """(funcs, aliens): the function table of the pair's engines beyond the standard functions, and the other
+    engines of the process: own function tables - differing from the pair's in names the templates read -
+    over the same template files, or over other files under the same names"""
+    funcs = {}
+    if rng.random() < (0.35 if reads else 0.05):
+        for c in (reads if reads and rng.random() < 0.85 else rng.sample(CONSTS, rng.randint(1, 2))):
+            if rng.random() < 0.8:
+                funcs[c] = g_const(rng)
+    aliens = []
+    if rng.random() < (0.55 if reads else 0.3):
+        for _ in range(rng.choice([1, 1, 1, 2])):
+            af = dict(funcs)
+            for c in (reads or rng.sample(CONSTS, 1)):
+                if rng.random() < 0.75:       # function in one engine, variable in the other
+                    if c in af:
+                        del af[c]
+                    else:
+                        af[c] = g_const(rng)
+            if rng.random() < 0.3:
+                for c in rng.sample(CONSTS + ["title", "foo", "n", "count", "q"], rng.randint(1, 2)):
+                    af.setdefault(c, g_const(rng))
+            if af == funcs:
+                c = rng.choice(CONSTS)
+                if c in af:
+                    del af[c]
+                else:
+                    af[c] = g_const(rng)
+            afiles = dict(files)
+            r = rng.random()
+            if r < 0.3:
+                # another template set: other files under the same names
+                for n in rng.sample(sorted(afiles), rng.randint(1, len(afiles))):
+                    afiles[n] = g_other(rng) if rng.random() < 0.7 else {"tree": const_reads(rng, reads or CONSTS[:2])}
+            warm = []
+            if rng.random() < 0.6:
+                warm.append({"render": rng.choice(sorted(afiles)), "data": data if rng.random() < 0.5 else g_data(rng, tier),
+                             "hold": 0, "pre": 0})
+            aliens.append({"funcs": af, "files": afiles, "first": rng.random() < 0.5, "warm": warm})
+    return funcs, aliens
+
+
+def g_alien_requests(rng, tier, data, aliens, prefix, late):
+    """0-2 renders by the alien engines among the renders of the history and of the late phase"""
+    for _ in range(rng.choice([0, 1, 1, 2])):
+        k = rng.randrange(len(aliens))
+        h, pre = g_hold(rng, 0.3)
+        rq = {"render": rng.choice(sorted(aliens[k]["files"])), "data": data if rng.random() < 0.5 else g_data(rng, tier),
+              "on": 100 + k, "hold": h, "pre": pre}
+        l = prefix if rng.random() < 0.6 else late
+        l.insert(rng.randint(0, len(l)), rq)
+
+
 SHAPES = ["each", "attrs", "json", "keys", "forin", "var", "keys_each", "assign_each", "push", "sort", "setkey",
           "objassign"]
 TREE_FAMILIES = ("acc", "free", "mix")
@@ -801,8 +1032,7 @@ def tpl_tree(entry):
 
 
 def top_names(data):
-    d = data[1] if data[0] == 'ptr' else data
-    return [k for k, _ in d[1]]
+    return [k for k, _ in top_of(data)[1]]
 
 
 def g_other(rng):
@@ -835,11 +1065,20 @@ def g_history(rng, tier, data, others, stateful):
     return hist
 
 
+MUTATING_SHAPES = ["push", "sort", "sort", "sort", "setkey", "objassign", "assign_each", "keys_each"]
+
+
 def g_case(rng, tier):
     data = g_data(rng, tier)
+    # OBJECT-MODEL DATA: 30% of the cases hold part of their data as pugjs objects; their templates are
+    # mostly the ones that write in place
+    objects = rng.random() < 0.32
     r = rng.random()
+    reads = []
+    if objects:
+        r = rng.choice([0.0] * 9 + [0.5] * 3 + [0.7] * 6 + [0.9] * 2)
     if r < 0.42:
-        k = rng.choice(SHAPES + ["itag", "itag"])
+        k = rng.choice(MUTATING_SHAPES) if objects else rng.choice(SHAPES + ["itag", "itag", "var"])
         if k == "itag":
             top = data[1][1] if data[0] == 'ptr' else data[1]
             top.append(("tg", ('str', rng.choice([b"a&b", b"x<y", b"p", b"q\"r", b"i>j", b"e&m"]))))
@@ -848,26 +1087,49 @@ def g_case(rng, tier):
             x = rng.choice(names)
             if rng.random() < 0.5:
                 x = x[:1].lower() + x[1:]
+            if rng.random() < 0.45:
+                x = rng.choice(CONSTS)       # a name read like a constant
+                reads = [x]
             sh = ("var", x)
         else:
             sh = (k,)
+        if k == "sort":
+            # a list worth sorting: at least two elements
+            top = data[1][1] if data[0] == 'ptr' else data[1]
+            for i, (key, v) in enumerate(top):
+                while key == "items" and len((v[1] if v[0] == 'ptr' else v)[1]) < 2:
+                    v = g_items(rng, tier)
+                    top[i] = (key, v)
         entry = shape_nodes(sh)
     elif r < 0.65:
         sh = ("acc",)
-        entry = {"tree": acc_nodes(rng)}
+        tree, reads = with_const_reads(rng, acc_nodes(rng))
+        entry = {"tree": tree}
     elif r < 0.82:
         sh = ("free",)
-        entry = {"tree": free_nodes(rng)}
+        tree, reads = with_const_reads(rng, free_nodes(rng, writes=objects))
+        entry = {"tree": tree}
     else:
         sh = ("mix",)
-        entry = {"tree": mix_nodes(rng)}
+        tree, reads = with_const_reads(rng, mix_nodes(rng))
+        entry = {"tree": tree}
+    # the names read like constants are variables of the page data (60% each; the rest stays unset)
+    top = data[1][1] if data[0] == 'ptr' else data[1]
+    for c in reads + ([rng.choice(CONSTS)] if rng.random() < 0.1 else []):
+        if rng.random() < 0.6 and c not in [k for k, _ in top]:
+            top.insert(rng.randint(0, len(top)), (c, rng.choice([('str', b"data:" + g_str(rng, 3)), g_scalar(rng)])))
     if sh[0] in TREE_FAMILIES and rng.random() < 0.85:
         data = lower_nested(data)
+    if objects:
+        data = objectify_data(rng, data)
     files = {"t": entry}
     # other templates for the history renders: state-building, mutation-heavy and key-caching ones over the same names
     others = {}
     for i in range(rng.randint(0, 3)):
-        others["p%d" % i] = g_other(rng)
+        o = g_other(rng)
+        if isinstance(o, dict) and reads and rng.random() < 0.4:
+            o = {"tree": o["tree"] + const_reads(rng, reads[:1])}
+        others["p%d" % i] = o
     prefix = g_history(rng, tier, data, others, sh[0] in TREE_FAMILIES)
     files.update(others)
     # where the rendered template lives, and the files around it that are never rendered
@@ -878,10 +1140,23 @@ def g_case(rng, tier):
     if hold_first and not late and not any(p["data"] != data or p["render"] != "t" for p in prefix):
         # the kept result must see a render of something else before it is read
         late = [{"render": "t", "data": g_data(rng, tier), "on": 0, "hold": 0, "pre": 0}]
+    # the engines of the process: function tables, alien engines and their renders
+    funcs, aliens = g_engines(rng, tier, data, files, reads)
+    if aliens:
+        g_alien_requests(rng, tier, data, aliens, prefix, late)
     return {"shape": list(sh), "nodes": files, "data": data, "prefix": prefix, "tdir": tdir, "siblings": siblings,
             "late": late, "hold_first": hold_first, "t_first": rng.random() < 0.5,
             "read_seed": rng.choice([0, 1, 1, rng.randint(2, 10 ** 6), rng.randint(2, 10 ** 6)]),
-            "read_step": rng.choice([0, 0, 0, 0, 1, 3, 7, 64])}
+            "read_step": rng.choice([0, 0, 0, 0, 1, 3, 7, 64]), "funcs": funcs, "aliens": aliens}
+
+
+def is_alien_req(case, p):
+    return p.get("on", 0) >= 100 and bool(case.get("aliens"))
+
+
+def n_alien_renders(case):
+    return (sum(len(a.get("warm", [])) for a in case.get("aliens", []))
+            + sum(1 for p in list(case["prefix"]) + list(case.get("late", [])) if is_alien_req(case, p)))
 
 
 def tree_has_mixin(entry):
@@ -891,6 +1166,17 @@ def tree_has_mixin(entry):
 
 def t_path(case):
     return (case.get("tdir") or "") + ("/" if case.get("tdir") else "") + "t"
+
+
+def funcs_go(funcs):
+    return {k: d_go(tuplify(v)) for k, v in (funcs or {}).items()}
+
+
+def alien_go(case, a):
+    tp = t_path(case)
+    return {"funcs": funcs_go(a.get("funcs")), "first": bool(a.get("first")),
+            "files": {hx(tp if n == "t" else n): hx(ast(tpl_ast(v))) for n, v in a["files"].items()},
+            "warm": [req_go(case, p) for p in a.get("warm", [])]}
 
 
 def req_go(case, p):
@@ -909,7 +1195,8 @@ def to_harness(case):
             "prefix": [req_go(case, p) for p in case["prefix"]],
             "late": [req_go(case, p) for p in case.get("late", [])],
             "hold_first": bool(case.get("hold_first")), "t_first": bool(case.get("t_first")),
-            "read_seed": case.get("read_seed", 0), "read_step": case.get("read_step", 0)}
+            "read_seed": case.get("read_seed", 0), "read_step": case.get("read_step", 0),
+            "funcs": funcs_go(case.get("funcs")), "aliens": [alien_go(case, a) for a in case.get("aliens", [])]}
 
 
 def tuplify(v):
@@ -939,8 +1226,12 @@ def tuplify(v):
         return ('nmap', [(k, tob(x)) for k, x in v[1]])
     if t in ('rec', 'prec'):
         return (t, {k: tuplify(x) for k, x in v[1].items()})
-    if t == 'ptr':
-        return ('ptr', tuplify(v[1]))
+    if t in ('ptr', 'obj'):
+        return (t, tuplify(v[1]))
+    if t == 'objs':
+        return ('objs', [tuplify(x) for x in v[1]])
+    if t == 'omap':
+        return ('omap', [(k, tuplify(x)) for k, x in v[1]])
     raise ValueError(v)
 
 
@@ -978,8 +1269,12 @@ def jsonable(v):
         return ['nmap', [[k, hb(x)] for k, x in v[1]]]
     if t in ('rec', 'prec'):
         return [t, {k: jsonable(x) for k, x in v[1].items()}]
-    if t == 'ptr':
-        return ['ptr', jsonable(v[1])]
+    if t in ('ptr', 'obj'):
+        return [t, jsonable(v[1])]
+    if t == 'objs':
+        return ['objs', [jsonable(x) for x in v[1]]]
+    if t == 'omap':
+        return ['omap', [[k, jsonable(x)] for k, x in v[1]]]
     raise ValueError(v)
 
 
@@ -995,7 +1290,11 @@ def case_json(case):
          "prefix": [req_json(p) for p in case["prefix"]], "tdir": case.get("tdir", ""),
          "siblings": case.get("siblings", {}), "late": [req_json(p) for p in case.get("late", [])],
          "hold_first": bool(case.get("hold_first")), "t_first": bool(case.get("t_first")),
-         "read_seed": case.get("read_seed", 0), "read_step": case.get("read_step", 0)}
+         "read_seed": case.get("read_seed", 0), "read_step": case.get("read_step", 0),
+         "funcs": {k: jsonable(tuplify(v)) for k, v in case.get("funcs", {}).items()},
+         "aliens": [{"funcs": {k: jsonable(tuplify(v)) for k, v in a.get("funcs", {}).items()}, "files": a["files"],
+                     "first": bool(a.get("first")), "warm": [req_json(p) for p in a.get("warm", [])]}
+                    for a in case.get("aliens", [])]}
     return json.loads(json.dumps(c))      # exactly what a replay file holds (tuples become lists)
 
 
@@ -1023,12 +1322,12 @@ class C07(Prop):
     prop_module = "Props.C07"
     prop_file = "Props/C07.v"
     coq_targets = ["Props/C07.vo", "Run/Judge_C07.vo"]
-    sizes = {"quick": 300, "thorough": 5000}
+    sizes = {"quick": 300, "thorough": 4000}
     shard = 100
     design_ref = "DESIGN.md section 6 C07, section 7 F-C05-c / F-C07-b"
-    rule = ("(template, data) pairs. Templates: 36% one of 12 order-sensitive shapes modelled by Models/Purity.v (each k,v / "
-            "&attributes / JSON.stringify / Object.keys / for-in / top-level name / Object.keys then each / Object.assign "
-            "into an ordered literal then each / push / sort / x.k = v / Object.assign); 6% 'itag' = a tag with a computed "
+    rule = ("(template, data) pairs. Templates: 42% (45% when the data holds pugjs objects) one of 12 order-sensitive shapes modelled by Models/Purity.v (each k,v / "
+            "&attributes / JSON.stringify / Object.keys / for-in / top-level name - 45% of them a name read like a constant - / Object.keys then each / Object.assign "
+            "into an ordered literal then each / push / sort (a list of at least 2 elements) / x.k = v / Object.assign) or 'itag' = a tag with a computed "
             "name (#{tg}, tg a string with or without & < > \") as the first node - where the translator decides about "
             "escaping before it has seen a code node of the file; judged by the oracle alone; 23% 'acc' = state built during "
             "the render: an object or array created by a literal ({} / {zz: 1} / {a: 'x', k: 2} / Object.assign({}, o) / "
@@ -1038,36 +1337,62 @@ class C07(Prop):
             "nested into a second literal, then enumerated (each k,v), serialised (JSON.stringify, String()), listed "
             "(Object.keys / join / length) or read at keys the render may not have set (acc.zz, acc.flag, acc.a); 17% "
             "'free' statement lists (push, pop, shift, unshift, sort, splice, slice, member and index assignment, "
-            "Object.assign, literals {} [] filled from the data, $global, variable shadowing, mixin attributes); 18% 'mix' = "
+            "Object.assign, literals {} [] filled from the data, $global, variable shadowing, mixin attributes; with pugjs objects in "
+            "the data 35% of the statements are in-place writes into items / m / o); 18% 'mix' = "
             "page-local mixins: 1-3 definitions under the names item / row / card / badge / mx (0-2 parameters; body = a "
             "marker text, the parameters, &attributes on a tag or attributes.x or items.length, optionally the block) and "
             "1-4 calls with arguments, attributes and blocks from the data (inside each-loops and tags; 10% of them call a "
-            "name the file does NOT define). acc, free and mix "
+            "name the file does NOT define). 55% of the acc / free / mix templates READ 1-2 of the names motto / claim / "
+            "brand / lang / year like constants (printed, tested, as an attribute value, inside an expression); 60% of these names are "
+            "variables of the page data, the others stay unset. acc, free and mix "
             "are pug trees judged by the oracle and predicted by the executor model run on the template ALONE (Pug.Compile + Tmpl.Exec; it "
-            "declines use-before-definition, execution errors and data in which two key names differ only in the case "
+            "declines use-before-definition, execution errors, function tables beyond the standard one and data in which two key names differ only in the case "
             "of the first letter - for 85% of the acc/free/mix cases the keys below the top level are lower-cased). "
             "Data: Go map[string]interface{}, map[string]string, map[string]int, map[int]string, []interface{}, "
             "[]string, []int, structs, pointers to structs, slices and maps, 0-48 keys (more than 8: several hash "
             "buckets), first-letter case collisions among keys (Foo/foo, A/a, Key/key). "
+            "OBJECT-MODEL DATA (32% of the cases): values of the data are held as objects of the engine's own model - "
+            "items in 90% of these cases (half of them a Go slice []pugjs.Object whose elements are pugjs.String / Number / Bool / Nil / *Map / *Array, "
+            "the others the *pugjs.Array the caller got from pugjs.Convert), m and o in 60% each (*pugjs.Map from pugjs.Convert of a map or a struct - "
+            "a struct's fields are converted on first access -, or map[string]pugjs.Object; otherwise their elements with 45%), other top-level values "
+            "with 35%, the whole data in 6% (pugjs.Convert(map)); the same objects are handed to every render of the pair "
+            "(r4 and the fresh processes build equal ones), the templates of these cases are 45% writing shapes (sort x3, push, "
+            "setkey, objassign, assign_each, keys_each), 15% acc, 30% free with in-place writes, 10% mix. Every slice the harness "
+            "builds ([]interface{}, []string, []int, []pugjs.Object) has len mod 3 marked elements of spare capacity behind its end; "
+            "'untouched' = reflect.DeepEqual with an independently built copy AND equal contents of all spare elements. "
+            "The judge sees an object as the Go value it was converted from (gen/c07.py d_coq). "
             "SIBLINGS: the rendered template is the file t (20%: sub/t) of template/page; every mix and itag case, every case "
             "whose template uses a mixin and 55% of the others get 1-3 sibling files that are never rendered - 60% in "
             "the template's directory, 20% in a sub-directory of it, 20% in its parent / another directory - each defining "
             "1-5 mixins, first of all the names the template defines or calls, with OTHER bodies and parameter lists, "
             "plus calls with blocks, script/style elements, doctypes, prints and statements, 40% ending in an unescaped "
             "code node (the translator leaves the file in raw mode); the 0-3 "
-            "templates of the history (35% acc, 35% free, 12% mix, 18% shapes) are siblings too. Three directory layouts "
+            "templates of the history (35% acc, 35% free, 12% mix, 18% shapes; 40% of the trees read a constant-like name the template reads) are siblings too. Three directory layouts "
             "per case: MAIN (template + history templates + siblings), ALONE (the template and nothing else), OTHER (the "
             "files of MAIN listed in the other order: in one of the two the template's entry comes before every sibling "
             "entry in os.File.Readdir, in the other after - the harness creates the files in the matching order and "
             "renames sibling entries until the listing it reads back says so; a run in which fewer than 80% of the "
             "cases with siblings got both orders is a check error). "
+            "ENGINES: all engines of the pair (6 in the full process, 1 in each fresh process) have the standard function table plus - 35% of the cases whose "
+            "template reads a constant-like name, 5% of the others - 1-2 zero-argument functions under such names (returning a string, "
+            "number, bool or list built anew per call). ALIEN ENGINES (55% of the cases whose template reads such a name, 30% of the "
+            "others; 1, in a quarter 2): further engine instances of the same process with a function table that DIFFERS from "
+            "the pair's - each name the template reads is with 75% a function in exactly one of the two tables, 30% get more "
+            "functions under other names (also title / foo / n / count / q) - over a directory of their own holding the SAME template "
+            "files (70%) or other templates under the same names (30%); half of them are created and loaded BEFORE the pair's "
+            "first engine exists (r0 is then not the first render of the process - the fresh processes are), the others after r2; 60% "
+            "render once right after loading, and 0-2 renders of the history / the late phase are theirs (30% kept unread). Every "
+            "alien render is repeated by the harness in a process that holds ONLY that engine (its files, its function "
+            "table) and renders only that request; the pair (output in the full process, output in its own process) must be "
+            "equal. An engine that fails to load is observed as class load_error for each of its renders (a template that "
+            "loads in no process at all is a check error). "
             "Every case runs in 4 processes "
-            "of its own (the harness re-executes itself per case: nothing is shared between cases, a replay is "
-            "self-contained): process 1 renders the pair 8 times and reads each result at once - r0 as the first render of the process' life, r1 again "
+            "of its own plus one per alien render (the harness re-executes itself per case: nothing is shared between cases, a replay is "
+            "self-contained): process 1 renders the pair 8 times and reads each result at once - r0 as the first render of the pair's engines, r1 again "
             "on the same engine, r2 on a second engine instance, then the HISTORY, r3 on a third engine, r4 with freshly "
             "built equal data on the first engine, r5 on an engine created only then, r6 on an engine over ALONE, r7 on an "
             "engine over OTHER; processes 2-4 render the pair "
-            "exactly once, over MAIN, ALONE and OTHER. HISTORY = 0-60 renders (acc/free/mix: 10% none, 68% 1-4, 17% 5-12, 5% 15-25 quick / 15-60 "
+            "exactly once, over MAIN, ALONE and OTHER, with no other engine in the process. HISTORY = 0-60 renders (acc/free/mix: 10% none, 68% 1-4, 17% 5-12, 5% 15-25 quick / 15-60 "
             "thorough; shapes: 0-12) of the same template with OTHER data (acc/free/mix: half of the entries, 80% of those "
             "with fresh random data) or of the other templates over the same variable "
             "names, each on a randomly chosen one of the three engine instances. "
@@ -1082,7 +1407,7 @@ class C07(Prop):
             "r0..r7; every other kept render is repeated at the end with freshly built equal data, read at once, and the "
             "two outputs must be equal. A process the Go runtime kills (stack "
             "exhaustion on a self-referential object, ...) is observed as class 'crash' for each of its renders. non-trivial = acc / free / mix / mutating "
-            "shape, or the rendered map-like value has at least 2 keys; distinct by SHA-1 of the case")
+            "shape, alien engines or own functions, or the rendered map-like value has at least 2 keys; distinct by SHA-1 of the case")
     trusted = [
         "the Go map iteration oracle pi of the theorems is an arbitrary function returning a permutation of the "
         "entries it is given (Section hypothesis perm_oracle); the runtime's real iteration orders are sampled by "
@@ -1090,47 +1415,71 @@ class C07(Prop):
         "Template.execute / state.walk enter the history theorems as Section variables (new_exec, run_exec, output: "
         "arbitrary functions of the template and the converted data ALONE); that a render reads nothing else - no "
         "engine field, no package-level variable, pool or cache written by an earlier render in the process - is not "
-        "proved but checked by the correspondence renders: r0 (nothing rendered before in the process) and the three "
+        "proved but checked by the correspondence renders: r0 (nothing rendered before by the pair's engines) and the three "
         "single-render processes against r1..r7 (after renders of the same and other templates with the same and "
         "other data on the same and other engine instances), on templates whose output exposes per-render state "
         "(objects built from literals, $global, variables, mixin attributes)",
         "the translator (renderState: Parse + TokenToTemplate) enters C07_sibling_independent / "
-        "C07_listing_order_independent as an arbitrary function `translate` of ONE file (Models/Purity.v load); that "
+        "C07_listing_order_independent as an arbitrary function `translate` of ONE file (Models/Purity.v load), and "
+        "C07_other_engines_independent as a function of the file and the configuration (function table) of ITS engine "
+        "(load_cfg); that "
         "compileDir really gives every file a translator of its own - that nothing (mixin table, block counter, "
-        "doctype, raw mode, function table) is carried from one file to the next - is not proved but checked: the "
+        "doctype, raw mode, function table, finished translations) is carried from one file to the next or from one engine of the "
+        "process to another - is not proved but checked: the "
         "engine over the template alone (r6, process 3) against engines over the template among siblings that define "
-        "the same mixin names differently, in both listing orders (r0-r5, r7, processes 2 and 4)",
+        "the same mixin names differently, in both listing orders (r0-r5, r7, processes 2 and 4); the pair's engines in a "
+        "process where engines with other function tables were loaded before them against the processes without such engines; "
+        "every render of an alien engine against the same render in a process of its own",
         "the result buffer enters C07_late_read_independent as a heap cell allocated by the render and never written "
         "again (Models/Purity.v rstep); that the io.Reader Engine.Render returns does not share storage with anything "
         "a later render writes is checked by the kept results (read after up to 60+8 further renders, in several orders)",
+        "the conversion enters C07_input_untouched as mconvert, which copies EVERY cell of the caller's data; that the Go "
+        "convert does so for every kind of value - Go slices, maps, structs, pointers, and values that already are "
+        "pugjs objects (Engine.Render: convertData since the repair F-C07-d) - is not derived from the Go source but checked: "
+        "reflect.DeepEqual of the caller's data (pugjs objects included, down to their unexported fields) with an "
+        "independently built copy, and of the spare capacity behind every slice, after all renders of a process",
+        "an object of the engine's model in the data is described to the judge by the Go value it was converted from "
+        "(pugjs.Convert is applied by the harness; what Convert makes of that value is the engine's own code, and "
+        "converting a converted value again shows a template the same members)",
         "the directory listing order is whatever os.File.Readdir returns on the file system of TMPDIR; the harness "
         "reads it back with the same call and reports per layout whether the template came before / after all siblings "
         "(distribution.listed_before_all_siblings_and_after_all_siblings)",
         "the executor model Pug.Compile + Tmpl.Exec (shared with C01-C06) predicts the acc / free / mix templates from the "
         "template and the data alone; it starts every render from a heap holding only the converted data and an "
         "empty $global, and every literal allocates a new heap cell; `x[i] = e` is run as the call x.__assign(i, e) "
-        "(the action text pugjs emits for both, Run/Judge_C07.v rw_node); its panics are not used as predictions",
+        "(the action text pugjs emits for both, Run/Judge_C07.v rw_node); its panics are not used as predictions; it knows "
+        "the standard function table only (cases whose engines have more functions are judged by the oracle alone)",
         "reflect.DeepEqual against a second, independently built copy of the data is the harness's oracle for "
         "'input untouched'",
         "lowerFirst is modelled on an ASCII first byte (generators use ASCII first letters)",
-        "process isolation: the harness binary re-executes itself (os/exec) once per case and per single render",
+        "process isolation: the harness binary re-executes itself (os/exec) once per case, per single render and per "
+        "alien render",
     ]
     assumptions = ["perm_oracle pi: every map range visits each entry exactly once, in some order",
                    "a render's execution state is a function of (template, converted data) - Section variables "
                    "new_exec / run_exec / output of C07_history_independent, C07_engine_independent, "
                    "C07_process_history_independent, C07_late_read_independent; sampled, not proved (see trusted)",
-                   "a compiled template is a function of its own file - variable translate of "
-                   "C07_sibling_independent / C07_listing_order_independent; sampled, not proved (see trusted)",
+                   "a compiled template is a function of its own file and of its own engine's function table - variable "
+                   "translate of C07_sibling_independent / C07_listing_order_independent / C07_other_engines_independent; "
+                   "sampled, not proved (see trusted)",
                    "template names (paths below template/page) are pairwise distinct - NoDup hypothesis of "
-                   "C07_listing_order_independent"]
+                   "C07_listing_order_independent",
+                   "the conversion copies every cell of the caller's data (mconvert; keep = nothing in "
+                   "C07_copy_all_untouched) - C07_shared_object_refuted shows what a conversion that keeps a cell does"]
     not_yet_proved = [
         "that the Go executor keeps no state between renders (package-level variables, pools, caches) is outside "
         "the Coq development: the theorems quantify over an executor that is a function of template and data; the "
         "correspondence check samples it with histories of up to 60 renders per case",
-        "that the Go translator is created per file and that the returned reader owns its bytes are modelled "
-        "(load, rstep) but not derived from the Go source; the variants load_shared / rstep_pooled are refuted "
-        "(C07_shared_translator_refuted, C07_pooled_buffer_refuted) and the real code is sampled by the sibling "
-        "layouts and the kept results",
+        "that the Go translator is created per file with the function table of its engine, that the returned reader owns "
+        "its bytes and that convert copies every value of the caller are modelled "
+        "(load / load_cfg, rstep, mconvert) but not derived from the Go source; the variants load_shared / load_all_memo / "
+        "rstep_pooled / mconvert_keep are refuted "
+        "(C07_shared_translator_refuted, C07_translation_memo_refuted, C07_pooled_buffer_refuted, "
+        "C07_shared_object_refuted) and the real code is sampled by the sibling "
+        "layouts, the alien engines, the kept results and the object-model data",
+        "template functions other than zero-argument constants (functions with arguments, functions returning the "
+        "same object on every call) are not generated; the package-level debugMode / loggerInstance of pugjs "
+        "(setLoggerInfos) are shared by all engines of a process - engines with different Debug settings are not part of this check",
         "concurrent renders (two goroutines rendering at the same time) and RenderPartials (several results in one "
         "map) are not part of this check; results are kept and read on one goroutine",
         "debug mode (Engine.Debug: a filtered load per render) is not part of this check",
@@ -1143,13 +1492,18 @@ class C07(Prop):
     def run(self, binary, cases, tmp, tier):
         obss = run_harness(binary, self.engine, [to_harness(c) for c in cases])
         for i, o in enumerate(obss):
-            if o["load"] != "ok":
+            if len(o["r"]) != FULL_RENDERS or len(o["fresh"]) != FRESH_PROCESSES:
+                raise BuildError("harness returned %d+%d renders (case %d)" % (len(o["r"]), len(o.get("fresh") or []), i), "")
+            # an engine that does not load is an observation (class load_error) - but a template that loads nowhere,
+            # not even in the processes that hold nothing else, is a defect of the generator
+            if all(r["class"] == "load_error" for r in o["r"] + o["fresh"]):
                 raise BuildError("generated template does not load (case %d)" % i,
                                  json.dumps(cases[i])[:3000] + "\n" + o.get("msg", ""))
-            if len(o["r"]) != FULL_RENDERS or len(o["fresh"]) != FRESH_PROCESSES:
-                raise BuildError("harness returned %d+%d renders (case %d)" % (len(o["r"]), len(o["fresh"]), i), "")
+            if len(o["alien"]) != len(o["alien_ref"]) or len(o["alien"]) != n_alien_renders(cases[i]):
+                raise BuildError("harness returned %d+%d renders by alien engines, expected %d (case %d)"
+                                 % (len(o["alien"]), len(o["alien_ref"]), n_alien_renders(cases[i]), i), "")
             c = cases[i]
-            reqs = list(c["prefix"]) + list(c.get("late", []))
+            reqs = [p for p in list(c["prefix"]) + list(c.get("late", [])) if not is_alien_req(c, p)]
             want_held = bool(c.get("hold_first")) + sum(1 for p in reqs if p.get("pair"))
             want_pairs = sum(1 for p in reqs if not p.get("pair") and p.get("hold"))
             if len(o["held"]) != want_held or len(o["pairs"]) != want_pairs:
@@ -1173,24 +1527,26 @@ class C07(Prop):
         untouched = obs["untouched"] and obs["prefix_untouched"] and obs["fresh_untouched"]
         ob = lambda r: cq_opt(cq_bytes(unhx(r["out"]))) if r["class"] == "ok" else b"None"
         pairs = [cq_pair(ob(a), ob(b_)) for a, b_ in obs.get("pairs", [])]
+        # a render by an alien engine in the full process / the same render in a process holding only that engine
+        pairs += [cq_pair(ob(a), ob(b_)) for a, b_ in zip(obs.get("alien", []), obs.get("alien_ref", []))]
         tree = tpl_tree(case["nodes"]["t"])
         return (b"{| c_shape := " + shape_coq(tuple(case["shape"])) +
                 b"; c_tmpl := " + cq_opt(None if tree is None else cq_list([tmpl.pug_coq(n) for n in tree])) +
                 b"; c_data := " + d_coq(tuplify(case["data"])) +
+                b"; c_funcs := " + cq_list([cq_bytes(k) for k in sorted(case.get("funcs", {}))]) +
                 b"; c_outs := " + cq_list(outs) + b"; c_pairs := " + cq_list(pairs) +
                 b"; c_untouched := " + cq_bool(untouched) + b" |}")
 
     def nontrivial(self, case, obs):
-        d = tuplify(case["data"])
-        if d[0] == 'ptr':
-            d = d[1]
+        d = top_of(tuplify(case["data"]))
         m = dict(d[1]).get("m")
         if case["shape"][0] in ("free", "acc", "mix", "push", "sort", "setkey", "objassign", "assign_each"):
             return True
+        if case.get("aliens") or case.get("funcs"):
+            return True
         if m is None:
             return False
-        if m[0] == 'ptr':
-            m = m[1]
+        m = top_of(m)
         return m[0] in ('rec', 'prec') or len(m[1]) >= 2
 
     def sample(self, case, obs):
@@ -1206,19 +1562,91 @@ class C07(Prop):
                 "kept_results_of_pair": len(obs.get("held", [])), "kept_results_of_other_renders": len(obs.get("pairs", [])),
                 "go_outputs_distinct": len({(r["class"], r["out"]) for r in outs}), "renders": len(outs),
                 "go_output": unhx(outs[0]["out"]).decode("utf-8", "replace")[:300] if outs[0]["class"] == "ok" else outs[0]["class"],
-                "data_untouched": obs["untouched"] and obs["prefix_untouched"] and obs["fresh_untouched"]}
+                "data_untouched": obs["untouched"] and obs["prefix_untouched"] and obs["fresh_untouched"],
+                "functions_of_the_pair_engines": sorted(case.get("funcs", {})),
+                "alien_engines": [{"functions": sorted(a.get("funcs", {})), "created_first": bool(a.get("first")),
+                                   "same_files_as_pair": a["files"] == case["nodes"]} for a in case.get("aliens", [])],
+                "alien_renders": len(obs.get("alien", []))}
 
     @staticmethod
     def req_plain(case, p):
         how = ["read at once", "kept unread", "first %d bytes read, rest kept" % p.get("pre", 0)][p.get("hold", 0)]
         if p.get("pair"):
             return {"render": "t", "engine": p.get("on", 0), "data": "same", "result": how}
+        if is_alien_req(case, p):
+            return {"render": p["render"], "engine": "alien %d" % (p["on"] - 100),
+                    "data": "same" if p["data"] == case["data"] else "other", "result": how}
         return {"render": p["render"], "engine": p.get("on", 2),
                 "data": "same" if p["data"] == case["data"] else "other", "result": how}
 
     def shrink(self, case):
         # no siblings / fewer siblings / the plain location, fewer late renders, nothing kept, then:
         # shorter history, fewer other templates, smaller template, fewer top-level keys, fewer entries of m / o
+        # no alien engines / fewer / created later / without warm renders / over the pair's files; no own functions;
+        # plain Go data instead of pugjs objects
+        aliens = case.get("aliens", [])
+        if aliens:
+            c = dict(case)
+            c["aliens"] = []
+            c["prefix"] = [p for p in case["prefix"] if not is_alien_req(case, p)]
+            c["late"] = [p for p in case.get("late", []) if not is_alien_req(case, p)]
+            yield c
+            if len(aliens) > 1:
+                for i in range(len(aliens)):
+                    keep = lambda p: not is_alien_req(case, p) or (p["on"] - 100) % len(aliens) != i
+                    fix = lambda p: dict(p, on=100) if is_alien_req(case, p) else p
+                    c = dict(case)
+                    c["aliens"] = aliens[:i] + aliens[i + 1:]
+                    c["prefix"] = [fix(p) for p in case["prefix"] if keep(p)]
+                    c["late"] = [fix(p) for p in case.get("late", []) if keep(p)]
+                    yield c
+            for i, a in enumerate(aliens):
+                if a.get("warm"):
+                    c = dict(case)
+                    c["aliens"] = aliens[:i] + [dict(a, warm=[])] + aliens[i + 1:]
+                    yield c
+                if a["files"] != case["nodes"]:
+                    c = dict(case)
+                    c["aliens"] = aliens[:i] + [dict(a, files=case["nodes"])] + aliens[i + 1:]
+                    yield c
+                if len(a["files"]) > 1:
+                    used_a = {p["render"] for p in a.get("warm", [])} | {p["render"] for p in case["prefix"] + case.get("late", [])
+                                                                         if is_alien_req(case, p)}
+                    for n_ in a["files"]:
+                        if n_ not in used_a:
+                            c = dict(case)
+                            c["aliens"] = aliens[:i] + [dict(a, files={x: y for x, y in a["files"].items() if x != n_})] + aliens[i + 1:]
+                            yield c
+                for fn in a.get("funcs", {}):
+                    c = dict(case)
+                    c["aliens"] = aliens[:i] + [dict(a, funcs={x: y for x, y in a["funcs"].items() if x != fn})] + aliens[i + 1:]
+                    yield c
+            for key in ("prefix", "late"):
+                for i, p in enumerate(case.get(key, [])):
+                    if is_alien_req(case, p):
+                        c = dict(case)
+                        c[key] = case[key][:i] + case[key][i + 1:]
+                        yield c
+        if case.get("funcs"):
+            for fn in case["funcs"]:
+                c = dict(case)
+                c["funcs"] = {x: y for x, y in case["funcs"].items() if x != fn}
+                yield c
+        if has_objects(tuplify(case["data"])):
+            c = dict(case)
+            c["data"] = jsonable(erase_objects(tuplify(case["data"])))
+            yield c
+            d0 = tuplify(case["data"])
+            if d0[0] == 'obj':
+                c = dict(case)
+                c["data"] = jsonable(d0[1])
+                yield c
+            elif d0[0] == 'map':
+                for i, (k, v) in enumerate(d0[1]):
+                    if has_objects(v):
+                        c = dict(case)
+                        c["data"] = jsonable(('map', d0[1][:i] + [(k, erase_objects(v))] + d0[1][i + 1:]))
+                        yield c
         sibs = case.get("siblings", {})
         if sibs:
             c = dict(case)
@@ -1322,9 +1750,9 @@ class C07(Prop):
                     yield c
         # the data of a history render: the pair's own data instead of other data is simpler
         d = case["data"]
-        inner = d[1] if d[0] == 'ptr' else d
-        wrap = (lambda x: ['ptr', x]) if d[0] == 'ptr' else (lambda x: x)
-        if d[0] == 'ptr':
+        inner = d[1] if d[0] in ('ptr', 'obj') else d
+        wrap = (lambda x: [d[0], x]) if d[0] in ('ptr', 'obj') else (lambda x: x)
+        if d[0] in ('ptr', 'obj'):
             c = dict(case)
             c["data"] = inner
             yield c
@@ -1335,15 +1763,21 @@ class C07(Prop):
                 c["data"] = wrap(['map', top[:i] + top[i + 1:]])
                 yield c
         for i, (k, v) in enumerate(top):
-            if v[0] in ('map', 'smap', 'imap', 'nmap') and len(v[1]) > 0:
+            if v[0] in ('map', 'smap', 'imap', 'nmap', 'omap') and len(v[1]) > 0:
                 for j in range(len(v[1])):
                     c = dict(case)
                     c["data"] = wrap(['map', top[:i] + [[k, [v[0], v[1][:j] + v[1][j + 1:]]]] + top[i + 1:]])
                     yield c
-            elif v[0] in ('arr', 'strs', 'ints') and len(v[1]) > 0:
+            elif v[0] in ('arr', 'strs', 'ints', 'objs') and len(v[1]) > 0:
                 for j in range(len(v[1])):
                     c = dict(case)
                     c["data"] = wrap(['map', top[:i] + [[k, [v[0], v[1][:j] + v[1][j + 1:]]]] + top[i + 1:]])
+                    yield c
+            elif v[0] == 'obj' and v[1][0] in ('arr', 'strs', 'ints', 'map', 'smap', 'imap') and len(v[1][1]) > 0:
+                w = v[1]
+                for j in range(len(w[1])):
+                    c = dict(case)
+                    c["data"] = wrap(['map', top[:i] + [[k, ['obj', [w[0], w[1][:j] + w[1][j + 1:]]]]] + top[i + 1:]])
                     yield c
         # smaller data in the history renders
         for pi_, p in enumerate(case["prefix"]):
@@ -1378,21 +1812,70 @@ class C07(Prop):
              "listed_before_all_siblings_and_after_all_siblings": 0,
              "kept_results_of_the_pair": 0, "kept_results_of_other_renders": 0, "partly_read_then_kept": 0,
              "cases_with_kept_result": 0, "late_renders": 0, "read_order": {"oldest_first": 0, "newest_first": 0,
-                                                                            "permuted": 0}, "read_round_robin": 0}
+                                                                            "permuted": 0}, "read_round_robin": 0,
+             # values of the engine's own object model in the data
+             "cases_with_pugjs_objects_in_data": 0, "object_kinds": {"obj": 0, "objs": 0, "omap": 0},
+             "items_is_a_slice_of_pugjs_objects": 0, "items_is_a_converted_array": 0, "m_or_o_is_a_converted_map": 0,
+             "whole_data_is_a_converted_map": 0, "objects_in_data_and_template_writes_in_place": 0,
+             "objects_in_data_and_template_sorts": 0,
+             # engines with other function tables / template sets
+             "templates_reading_a_constant_like_name": 0, "pair_engines_with_own_functions": 0,
+             "cases_with_alien_engines": 0, "alien_engines": 0, "alien_engines_created_first": 0,
+             "alien_engines_over_other_files_under_the_same_names": 0,
+             "name_read_by_the_template_is_function_in_one_engine_and_variable_in_another": 0,
+             "... and that other engine is created first": 0,
+             "alien_renders": 0, "alien_renders_ok_in_both_processes": 0, "alien_renders_kept_unread": 0,
+             "engine_load_errors_observed": 0}
         for c, o in zip(cases, obss):
+            dt = tuplify(c["data"])
+            kinds = d_kinds(dt, set())
+            if kinds & set(OBJ_KINDS):
+                d["cases_with_pugjs_objects_in_data"] += 1
+                for k in OBJ_KINDS:
+                    d["object_kinds"][k] += k in kinds
+                tp = dict(top_of(dt)[1])
+                it = tp.get("items", ('nil',))
+                d["items_is_a_slice_of_pugjs_objects"] += it[0] == 'objs'
+                d["items_is_a_converted_array"] += it[0] == 'obj'
+                d["m_or_o_is_a_converted_map"] += any(tp.get(x, ('nil',))[0] in ('obj', 'omap') for x in ("m", "o"))
+                d["whole_data_is_a_converted_map"] += dt[0] == 'obj'
+                src = json.dumps(tpl_ast(c["nodes"]["t"]))
+                writes = any(w in src for w in (".sort(", ".push(", ".pop(", ".shift(", ".unshift(", ".splice(", " = ",
+                                                "Object.assign("))
+                d["objects_in_data_and_template_writes_in_place"] += writes
+                d["objects_in_data_and_template_sorts"] += ".sort(" in src
+            reads = tree_consts(tpl_ast(c["nodes"]["t"]))
+            d["templates_reading_a_constant_like_name"] += bool(reads)
+            d["pair_engines_with_own_functions"] += bool(c.get("funcs"))
+            al = c.get("aliens", [])
+            d["cases_with_alien_engines"] += bool(al)
+            d["alien_engines"] += len(al)
+            d["alien_engines_created_first"] += sum(1 for a in al if a.get("first"))
+            d["alien_engines_over_other_files_under_the_same_names"] += sum(1 for a in al if a["files"] != c["nodes"])
+            pf = set(c.get("funcs", {}))
+            differ = [a for a in al if any((x in pf) != (x in a.get("funcs", {})) for x in reads)]
+            d["name_read_by_the_template_is_function_in_one_engine_and_variable_in_another"] += bool(differ)
+            d["... and that other engine is created first"] += any(a.get("first") for a in differ)
+            d["alien_renders"] += len(o.get("alien", []))
+            d["alien_renders_ok_in_both_processes"] += sum(1 for a, b_ in zip(o.get("alien", []), o.get("alien_ref", []))
+                                                           if a["class"] == "ok" and b_["class"] == "ok")
+            d["alien_renders_kept_unread"] += sum(1 for p in list(c["prefix"]) + list(c.get("late", []))
+                                                  if is_alien_req(c, p) and p.get("hold"))
+            d["engine_load_errors_observed"] += any(r["class"] == "load_error" for r in self.outs(o) + list(o.get("alien", []))
+                                                    + list(o.get("alien_ref", [])))
             d["shape"][c["shape"][0]] = d["shape"].get(c["shape"][0], 0) + 1
             data = tuplify(c["data"])
             for k in d_kinds(data, set()):
                 d["data_kinds"][k] = d["data_kinds"].get(k, 0) + 1
-            inner = data[1] if data[0] == 'ptr' else data
+            inner = top_of(data)
             names = [k for k, _ in inner[1]]
             m = dict(inner[1]).get("m")
             if m is not None:
-                mm = m[1] if m[0] == 'ptr' else m
+                mm = top_of(m)
                 d["m_kind"][m[0]] = d["m_kind"].get(m[0], 0) + 1
                 n = len(mm[1])
                 d["m_keys"]["0-1" if n < 2 else "2-8" if n <= 8 else "9+"] += 1
-                if mm[0] in ('map', 'smap', 'imap'):
+                if mm[0] in ('map', 'smap', 'imap', 'omap'):
                     names = names + ["m." + k for k, _ in mm[1]]
             folded = [(x.rsplit(".", 1)[0] if "." in x else "", (x.rsplit(".", 1)[-1][:1].lower() + x.rsplit(".", 1)[-1][1:]))
                       for x in names]
